@@ -198,7 +198,14 @@ public:
 #if _MSC_VER
 #pragma intrinsic(__rdtsc)
 #endif
+#if ONETBB_VERIF_SIM
+extern "C" std::uint64_t sim_machine_time_stamp(void);
+#endif
 inline std::uint64_t machine_time_stamp() {
+#if ONETBB_VERIF_SIM
+    // verification hook: the time stamp comes from the simulated clock
+    return sim_machine_time_stamp();
+#endif
 #if __INTEL_COMPILER
     return _rdtsc();
 #elif _MSC_VER
